@@ -108,7 +108,7 @@ Section Confinement.
     intros h i v Hi j Hj. apply get_set_other. intros ->. contradiction.
   Qed.
 
-  Lemma alloc_spec : forall h v, alloc h v = (h_next h, mkHost (assoc_set (h_next h) v (h_nodes h)) (h_next h + 1)).
+  Lemma alloc_spec : forall h v, alloc h v = (h_next h, mkHost (assoc_set (h_next h) v (h_nodes h)) (h_next h + 1) (h_utimes h)).
   Proof. reflexivity. Qed.
 
   Lemma closedE_alloc : forall h v i h', closedE h -> alloc h v = (i, h') -> closed_inode i v ->
@@ -540,6 +540,12 @@ Section Confinement.
     intros c h i n r h' Hc Hi H. unfold sys_removexattr in H.
     destruct (get h i) as [iv|] eqn:Hg; [|inversion H; subst; apply conf_refl; exact Hc].
     split_ifs H; inversion H; subst; close_one Hc Hi Hg Hg.
+  Qed.
+
+  Lemma sys_utimens_conf : forall h i a m r h', closedE h -> sys_utimens h i a m = (r, h') -> conf h h'.
+  Proof.
+    intros h i a m r h' Hc H. unfold sys_utimens in H. destruct (get h i); inversion H; subst; [|apply conf_refl; exact Hc].
+    split; [|intros j _; reflexivity]. destruct Hc as [Hn Hcl]. split; [exact Hn|]. intros j w Hj Hg. apply (Hcl j w Hj Hg).
   Qed.
 
   Lemma conf_trans : forall a b c, conf a b -> conf b c -> conf a c.
